@@ -113,7 +113,8 @@ theorem crossGo_cfg (f : List ℝ → ℝ) (params : PList ℝ) (all : List Name
 /-- how a computing `updateDerivatives` ends -/
 inductive Ending (f : List ℝ → ℝ) (params : PList ℝ) (w : W ℝ) (fn0 : Fn ℝ) (r : W ℝ × Option Exc) : Prop
   | raised (h : r.2 ≠ none)
-  | tooLarge (fn1 : Fn ℝ) (hr : ReachS f fn0 fn1) (hb : tooBig fn1.fval = true) (he : r.1.fn = fn1)
+  | tooLarge (fn1 : Fn ℝ) (hr : ReachS f fn0 fn1) (hb : tooBig fn1.fval = true)
+      (he : r.1.fn.pt1 = fn1.pt1 ∧ (fn1.kind ≥ 1 → r.1.fn.en1 = w.c1))
   | finished (w' : W ℝ) (lv : Option Name) (all : Bool) (hr : ReachS f fn0 w'.fn) (hc : SameCfg w w')
       (he : r = finish f params lv all w')
 
@@ -129,7 +130,13 @@ theorem update3_decomp (f : List ℝ → ℝ) (w : W ℝ) (params : PList ℝ)
     have r1 : ReachS f ((w.fn.enable1 false).enable2 false) fn1 := (ReachS.refl _).of_set h
     split
     · rename_i htb
-      exact .tooLarge fn1 r1 htb rfl
+      refine .tooLarge fn1 r1 htb ⟨?_, ?_⟩
+      · show ((fn1.enable1 w.c1).enable2 w.c2).pt1 = fn1.pt1
+        unfold Fn.enable2 Fn.enable1; repeat' split
+        all_goals rfl
+      · intro hk
+        show ((fn1.enable1 w.c1).enable2 w.c2).en1 = w.c1
+        unfold Fn.enable2 Fn.enable1; rw [if_pos hk]; split <;> rfl
     · have hl := loopGo_reach f (step3 f params) (step3_reach f params) w.vars 0
         { w := { w with fn := fn1, f2 := fn1.fval }, p := [], lastVar := none }
       have hcf := loopGo_cfg (step3 f params) (step3_cfg f params) w.vars 0
@@ -190,7 +197,12 @@ theorem update2_decomp (f : List ℝ → ℝ) (w : W ℝ) (params : PList ℝ)
     have r1 : ReachS f (w.fn.enable1 false) fn1 := (ReachS.refl _).of_set h
     split
     · rename_i htb
-      exact .tooLarge fn1 r1 htb rfl
+      refine .tooLarge fn1 r1 htb ⟨?_, ?_⟩
+      · show (fn1.enable1 w.c1).pt1 = fn1.pt1
+        unfold Fn.enable1; split <;> rfl
+      · intro hk
+        show (fn1.enable1 w.c1).en1 = w.c1
+        unfold Fn.enable1; rw [if_pos hk]
     · have hl := loopGo_reach f (step2 f params) (step2_reach f params) w.vars 0
         { w := { w with fn := fn1, f1 := fn1.fval }, p := [], lastVar := none }
       have hcf := loopGo_cfg (step2 f params) (step2_cfg f params) w.vars 0
@@ -355,16 +367,19 @@ theorem ReachS.kind {f : List ℝ → ℝ} {a b : Fn ℝ} (h : ReachS f a b) : b
 /-- common end of the three computing branches -/
 theorem ending_fresh (f : List ℝ → ℝ) (params : PList ℝ) (w : W ℝ) (fn0 : Fn ℝ) (r : W ℝ × Option Exc)
     (hend : Ending f params w fn0 r) (hk : w.fn.kind ≥ 1) (hcons : w.fn.en1 = w.c1) (hfr : Fresh1 w.fn)
-    (h0 : Off1 w.fn.pt1 fn0) (hk0 : fn0.kind = w.fn.kind)
-    (hnb : tooBig (f (values w.fn.params)) = false) (hnone : r.2 = none)
-    (hp : r.1.fn.params = w.fn.params) (hok : r.1.fn.OK f) :
+    (h0 : Off1 w.fn.pt1 fn0) (hk0 : fn0.kind = w.fn.kind) (hnone : r.2 = none)
+    (hp : r.1.fn.params = w.fn.params) :
     r.1.fn.en1 = w.c1 ∧ Fresh1 r.1.fn := by
   cases hend with
   | raised h => exact absurd hnone h
   | tooLarge fn1 hr hb he =>
-    exfalso
-    have : fn1.fval = f (values w.fn.params) := by rw [← hp, ← he]; exact he ▸ hok
-    rw [this, hnb] at hb; cases hb
+    have hoff := h0.reachS hr
+    have hk1 : fn1.kind ≥ 1 := by rw [hr.kind, hk0]; exact hk
+    refine ⟨he.2 hk1, ?_⟩
+    intro hen
+    rw [he.1, hoff.2, hp]
+    apply hfr
+    rw [hcons, ← he.2 hk1]; exact hen
   | finished w' lv all hr hc he =>
     have hoff := h0.reachS hr
     have hk' : w'.fn.kind ≥ 1 := by rw [hr.kind, hk0]; exact hk
@@ -381,7 +396,7 @@ theorem ending_fresh (f : List ℝ → ℝ) (params : PList ℝ) (w : W ℝ) (fn
 theorem update_fresh (f : List ℝ → ℝ) (w : W ℝ) (params : PList ℝ) (hown : Own w.fn) (hok : w.fn.OK f)
     (hsync : Synced params w.fn.params) (hpnd : (names params).Nodup)
     (hk : w.fn.kind ≥ 1) (hcons : w.fn.en1 = w.c1) (hfr : Fresh1 w.fn)
-    (hnb : tooBig (f (values w.fn.params)) = false) (hnone : (w.update f params).2 = none) :
+    (hnone : (w.update f params).2 = none) :
     (w.update f params).1.fn.en1 = w.c1 ∧ Fresh1 (w.update f params).1.fn := by
   obtain ⟨sp, so, _, _⟩ := update_spec f w params hown hok hsync hpnd _ rfl hnone
   -- the branch that computes nothing: switch on as asked, one `setParameters`
@@ -402,7 +417,7 @@ theorem update_fresh (f : List ℝ → ℝ) (w : W ℝ) (params : PList ℝ) (ho
     rw [hs] at hnone sp so
     simp only [] at hnone sp so ⊢
     by_cases hcond : (w.c1 && decide (w.vars.length > 0)) = true
-    · exact ending_fresh f params w _ _ (update2_decomp f w params hcond) hk hcons hfr hoff2 (by simp) hnb hnone sp so
+    · exact ending_fresh f params w _ _ (update2_decomp f w params hcond) hk hcons hfr hoff2 (by simp) hnone sp
     · unfold update2
       rw [if_neg hcond]
       simp only []
@@ -413,7 +428,7 @@ theorem update_fresh (f : List ℝ → ℝ) (w : W ℝ) (params : PList ℝ) (ho
     rw [hs] at hnone sp so
     simp only [] at hnone sp so ⊢
     by_cases hcond : (w.c1 && decide (w.vars.length > 0)) = true
-    · exact ending_fresh f params w _ _ (update3_decomp f w params hcond) hk hcons hfr hoff3 (by simp) hnb hnone sp so
+    · exact ending_fresh f params w _ _ (update3_decomp f w params hcond) hk hcons hfr hoff3 (by simp) hnone sp
     · unfold update3
       rw [if_neg hcond]
       simp only []
@@ -424,7 +439,7 @@ theorem update_fresh (f : List ℝ → ℝ) (w : W ℝ) (params : PList ℝ) (ho
     rw [hs] at hnone sp so
     simp only [] at hnone sp so ⊢
     by_cases hcond : (w.c1 && decide (w.vars.length > 0)) = true
-    · exact ending_fresh f params w _ _ (update5_decomp f w params hcond) hk hcons hfr hoff3 (by simp) hnb hnone sp so
+    · exact ending_fresh f params w _ _ (update5_decomp f w params hcond) hk hcons hfr hoff3 (by simp) hnone sp
     · unfold update5
       rw [if_neg hcond]
       simp only []
